@@ -385,7 +385,7 @@ fn run_flavour<F: Flv>(ctx: &Ctx, sh: &Shared, cov: &mut Map<String, Value>) -> 
     // ---- (c) single-point mutations of tree encodings
     let space = tree_space(fl, !ctx.quick());
     let alphabet: &[u8] = if ctx.quick() { &MUT_ALPHABET_QUICK } else { &gen::ALL_BYTES };
-    // quick: bases = S1 and S3 (depth 1 and depth 3); thorough: S1, S2 and S3 with the 12-symbol alphabet on S2/S3 and all 256 values on S1
+    // quick: bases = S1 and S3 (depth 1 and depth 3), 12 structural values; thorough: S1 and S2 with all 256 values, S3 (wide core) with the 12 structural values
     let n = space.len() as u64;
     let s1 = space.s1.len();
     let s12 = space.s1.len() + space.s2.len();
@@ -402,7 +402,7 @@ fn run_flavour<F: Flv>(ctx: &Ctx, sh: &Shared, cov: &mut Map<String, Value>) -> 
             return;
         }
         bases.fetch_add(1, Ordering::Relaxed);
-        let alpha: &[u8] = if i < s1 { alphabet } else { &MUT_ALPHABET_QUICK };
+        let alpha: &[u8] = if i < s12 { alphabet } else { &MUT_ALPHABET_QUICK };
         let mut muts = 0u64;
         let mut wf = 0u64;
         // the unmutated encoding itself
@@ -506,7 +506,7 @@ pub fn run(ctx: Ctx) -> ! {
          (d) every chain of 1..={} wrappers out of 7 around one leaf of every kind, the four empty containers and a byte array, at limits 0..=7 and 256. \
          non-trivial = distinct well-formed (b) strings + distinct ladder payloads (each checked at all its limits)",
         if quick { 5 } else { 6 },
-        if quick { "bases S1 and S3(narrow core), 12 structural byte values" } else { "bases S1 with all 256 byte values, S2 and S3(wide core) with the 12 structural byte values" },
+        if quick { "bases S1 and S3(narrow core), 12 structural byte values" } else { "bases S1 and S2 with all 256 byte values, S3(wide core) with the 12 structural byte values" },
         if quick { 5 } else { 6 },
     );
     ctx.finish(
